@@ -5,11 +5,13 @@
    * Values are finite TREES.  Lua tables are mutable references; here a container is a value and an
      operation that mutates it RETURNS THE NEW CONTAINER (explicit state threading, Sem/Runtime.v).
      Aliasing of one mutable list/dict/set under two names and cyclic values are outside the model.
-   * Numbers: Lua 5.1/LuaJIT has one number type (IEEE double).  Here a number is an exact rational
-     `Q` kept in lowest terms (the representation of Lua/LuaNum.v, shared with LuaCore).  Sylt `int`
-     and `float` values are both `VNum`; an int is a `VNum` with denominator 1.  NaN, infinities,
-     negative zero, rounding and overflow are OUT OF SCOPE: an operation whose IEEE result would be
-     inf/NaN yields `Unsup`, never a normal-looking value.
+   * Numbers: the reference interpreter is Lua 5.3 (the repo's CI runs lua5.3): integers and floats are
+     distinct subtypes of `number`.  `VInt z` is an integer (unbounded `Z`; 64-bit wrap-around is OUT
+     OF SCOPE), `VFloat q` a float, modelled as an exact rational `Q` in lowest terms (the
+     representation of Lua/LuaNum.v, shared with LuaCore).  NaN, infinities, negative zero and IEEE
+     rounding are OUT OF SCOPE: an operation whose IEEE result would be inf/NaN yields `Unsup`, never
+     a normal-looking value.  (Under LuaJIT/5.1 there is one number type; what differs there is a
+     note in the reports, not part of the model.)
    * `VLuaNil` is Lua's `nil` (absence); `VNil` is the table `__NIL`, the value of Sylt's `nil`.
      They are different run-time values and `==` tells them apart -- this matters for C18. *)
 From Coq Require Import String Ascii List NArith ZArith QArith Bool.
@@ -19,7 +21,8 @@ Inductive value : Type :=
 | VLuaNil                                         (* Lua nil *)
 | VNil                                            (* __NIL *)
 | VBool (b : bool)
-| VNum (q : Q)
+| VInt (z : Z)                                    (* number, integer subtype *)
+| VFloat (q : Q)                                  (* number, float subtype *)
 | VStr (s : string)
 | VTuple (vs : list value)                        (* __TUPLE{ ... } *)
 | VList (vs : list value)                         (* __LIST{ ... }: the array part 1..n *)
@@ -197,8 +200,8 @@ Fixpoint vty (t : ty) (v : value) {struct t} : Prop :=
   match t with
   | TNil => v = VNil
   | TBool => exists b, v = VBool b
-  | TInt => exists z, v = VNum (z # 1)
-  | TFloat => exists q, v = VNum q /\ q_wf q
+  | TInt => exists z, v = VInt z
+  | TFloat => exists q, v = VFloat q /\ q_wf q
   | TStr => exists s, v = VStr s
   | TTuple ts => match v with VTuple vs => all2 (fun t' v' => vty t' v') ts vs | _ => False end
   | TList t' => match v with VList vs => allP (fun v' => vty t' v') vs | _ => False end
